@@ -1041,7 +1041,7 @@ def extend_as_iadd(tree, ref):
             for i, st in enumerate(block):
                 if isinstance(st, ast.Expr) and isinstance(st.value, ast.Call) and isinstance(st.value.func, ast.Attribute) and st.value.func.attr == 'extend' and \
                         isinstance(st.value.func.value, ast.Name) and st.value.func.value.id in lists and len(st.value.args) == 1 and not st.value.keywords and \
-                        rc.get(_txt(st.value.func), 0) == 0 and isinstance(st.value.args[0], (ast.Name, ast.Attribute, ast.List, ast.Tuple, ast.Subscript)):
+                        rc.get(_txt(st.value.func), 0) == 0 and isinstance(st.value.args[0], (ast.Name, ast.Attribute, ast.List, ast.Tuple, ast.Subscript, ast.Call)):
                     block[i] = ast.copy_location(ast.AugAssign(target=ast.Name(id=st.value.func.value.id, ctx=ast.Store()), op=ast.Add(), value=st.value.args[0]), st)
                     total += 1
     if total:
